@@ -110,6 +110,22 @@ func (ff *FuncFacts) proveSplit(fs FactSet, b *ssa.BasicBlock, g *Affine, depth 
 	if b != nil {
 		known = append(known, ff.usubIneqs(b)...)
 	}
+	// integer division by a positive constant: for x ≥ 0 and q = x/k:  k·q ≤ x ≤ k·q + (k−1)
+	for s, q := range ff.T.quot {
+		if _, used := g.Co[s]; !used {
+			continue
+		}
+		x := ff.T.Affine(q.X)
+		if !proveGE0(x, known, 3) {
+			continue
+		}
+		kq := newAffine()
+		kq.Co[s] = q.K
+		known = append(known, x.Sub(kq))
+		up := kq.Sub(x)
+		up.C += q.K - 1
+		known = append(known, up)
+	}
 	if proveGE0(g, known, 4) {
 		return true
 	}
